@@ -96,11 +96,19 @@ class Reads:
                 if _is_self_attr(n) and isinstance(n.ctx, ast.Load):
                     out |= self._attr(fi, n, parents, depth)
                 elif isinstance(n, ast.Subscript) and isinstance(n.value, ast.Name) and n.value.id == "self" and isinstance(n.ctx, ast.Load):
-                    out.add(("<items of self>", "items"))
+                    out |= self._items(depth)
                 elif _bare_self_value(n, parents):
                     out.add(("<value of self>", "content"))
         self._fn_cache[key] = out
         return out
+
+    def _items(self, depth):
+        """`self[...]`: what the class's own `__getitem__` (defined inside the package) reads; items of an external base class
+        (a Table, a dict) otherwise."""
+        me = self.view.method("__getitem__")
+        if me is not None:
+            return set(self.of_function_returns(me, depth + 1)) or {("<items of self>", "items")}
+        return {("<items of self>", "items")}
 
     def _attr(self, fi, n, parents, depth):
         name = n.attr
@@ -126,7 +134,7 @@ class Reads:
             if _is_self_attr(n) and isinstance(n.ctx, ast.Load):
                 out |= self._attr(fi, n, parents, depth)
             elif isinstance(n, ast.Subscript) and isinstance(n.value, ast.Name) and n.value.id == "self":
-                out.add(("<items of self>", "items"))
+                out |= self._items(depth)
             elif isinstance(n, ast.Name) and isinstance(n.ctx, ast.Load) and n.id != "self" and n.id not in seen:
                 seen.add(n.id)
                 for rhs in _local_defs(fi.node, n.id):
